@@ -1,6 +1,7 @@
 package rules
 
 import (
+	"unicode/utf8"
 	"fmt"
 	"go/token"
 	"go/types"
@@ -781,7 +782,7 @@ func c02HandlerErrOnWire(c *core.Ctx) {
 			core.Instrs(hc.Fn, func(in ssa.Instruction) {
 				if st, ok := in.(*ssa.Store); ok {
 					if base, f, ok := core.FieldOf(st.Addr); ok && core.NamedOf(base.Type()) == "HttpTrailer" {
-						if _, sf, ok := core.FieldOf(st.Val); ok && sf == f {
+						if _, sf, ok := core.FieldOf(throughSanitiser(st.Val)); ok && sf == f {
 							fields[f] = true
 						}
 					}
@@ -914,7 +915,7 @@ func c02Components(c *core.Ctx) {
 			if dt == "" {
 				return
 			}
-			src := st.Val
+			src := throughSanitiser(st.Val)
 			if cv, ok := src.(*ssa.Convert); ok {
 				src = cv.X
 			}
@@ -1276,7 +1277,14 @@ func c02MessageVerbatim(c *core.Ctx) {
 				continue
 			}
 			nW++
+			nEnc := len(encs)
 			bad, undec := traceVerbatim(args[1], accessor)
+			// an HTTP header value does not carry arbitrary text: net/http turns CR and LF into blanks and trims the
+			// value. A message that goes into the header as it is arrives altered when it contains a line break or
+			// ends in a blank; it has to pass a text codec (whose inverse the reader applies, checked below)
+			if bad == "" && undec == "" {
+				c.Check(len(encs) > nEnc, "httpgrpc:unary-status-header:message-header-safe", sp.Pos(), "the message passes a text codec before it becomes a header value", "the status message is put into an HTTP header value as it is: net/http replaces CR and LF by blanks and trims the value, so a message with a line break or a trailing blank reaches the caller altered (the streaming path carries the message in the trailer frame and keeps it; the standard transport percent-encodes it)")
+			}
 			switch {
 			case bad != "":
 				c.Fail(key, sp.Pos(), "the message written into the status header is not the status' own message: %s (the reader takes the text after the first ':' as is)", bad)
@@ -1289,6 +1297,53 @@ func c02MessageVerbatim(c *core.Ctx) {
 	}
 	if nW == 0 {
 		c.Fail("httpgrpc:status-header-writer", token.NoPos, "ANCHOR-MISSING: no Sprintf(\"…:%%s\") building the unary status header found in the unary handler")
+	}
+	// streaming: the message goes into a proto3 string field of the trailer frame, which must be valid UTF-8 or the
+	// frame cannot be marshalled at all (no trailer: the caller sees a cut reply instead of the handler's code); a
+	// handler's message is arbitrary text, so it passes a UTF-8 sanitiser first (as the standard transport does)
+	for _, hc := range httpHandlerClosures(p) {
+		if !hc.Stream {
+			continue
+		}
+		core.Instrs(hc.Fn, func(in ssa.Instruction) {
+			st, ok := in.(*ssa.Store)
+			if !ok || core.TypeStr(st.Val.Type()) != "string" {
+				return
+			}
+			base, f, isF := core.FieldOf(st.Addr)
+			if !isF || f != "Message" || !strings.HasSuffix(core.NamedOf(base.Type()), "Trailer") {
+				return
+			}
+			var sane func(v ssa.Value, depth int) bool
+			sane = func(v ssa.Value, depth int) bool {
+				return core.AllOrigins(v, func(o ssa.Value) bool {
+					if s, isC := core.ConstString(o); isC {
+						return utf8.ValidString(s)
+					}
+					call, _, isCall := core.CallResult(o)
+					if !isCall {
+						return false
+					}
+					ci := core.InfoOf(&call.Call)
+					if ci.Is("strings.ToValidUTF8") || ci.Is("bytes.ToValidUTF8") {
+						return true
+					}
+					if ci.Is(codesPkg + ".Code.String") {
+						return true // the names of the codes are ASCII
+					}
+					if ci.Static != nil && ci.Static.Blocks != nil && strings.HasPrefix(ci.Pkg, core.ModulePath) && depth < 2 && ci.Static.Signature.Results().Len() == 1 {
+						for _, r := range core.Returns(ci.Static) {
+							if !sane(r.Results[0], depth+1) {
+								return false
+							}
+						}
+						return true
+					}
+					return false
+				})
+			}
+			c.Check(sane(st.Val, 0), core.FuncName(hc.Fn)+":trailer-message-valid-utf8", st.Pos(), "the message put into the trailer frame passed a UTF-8 sanitiser", "the handler's status message goes into the proto3 string field of the trailer frame as it is: if it is not valid UTF-8 the frame cannot be marshalled, no trailer is written and the caller sees a cut reply (Unknown: unexpected EOF) instead of the handler's code")
+		})
 	}
 	// reader: functions returning *status.Status from an *http.Response
 	nR := 0
@@ -1750,4 +1805,15 @@ func c02TranslatorsExact(c *core.Ctx) {
 	if n == 0 {
 		c.Fail("translators:exact", token.NoPos, "ANCHOR-MISSING: no context→status translator found")
 	}
+}
+
+// throughSanitiser: a string that merely passed a UTF-8 sanitiser is, for the
+// component rules, the string it was made from.
+func throughSanitiser(v ssa.Value) ssa.Value {
+	if call, ok := core.Strip(v).(*ssa.Call); ok {
+		if ci := core.InfoOf(&call.Call); (ci.Is("strings.ToValidUTF8") || ci.Is("bytes.ToValidUTF8")) && len(call.Call.Args) == 2 {
+			return call.Call.Args[0]
+		}
+	}
+	return v
 }
